@@ -31,6 +31,34 @@ def generate() -> dict[str, str]:
             skip_prefixes=('sent_mp', 'recv_mp', 's: set', 'r: set', 'mismatch = ', 'for family in mismatch'),
         ),
     )
+    # ---- the scalar part of Negotiated._negotiate -----------------------------------------------------------------
+    from exabgp.bgp.message.open.capability.extended import ExtendedMessage
+    from exabgp.bgp.message.open.capability.refresh import REFRESH
+
+    caps = {'FOUR_BYTES_ASN': 'Asn4', 'OPERATIONAL': 'Operational', 'ENHANCED_ROUTE_REFRESH': 'Enhanced', 'ROUTE_REFRESH': 'Refresh', 'EXTENDED_MESSAGE': 'ExtMsg', 'LINK_LOCAL_NEXTHOP': 'LinkLocal'}
+    nopaque = {
+        'self.sent_open.hold_time': ('sentHold', 'int'),
+        'self.received_open.hold_time': ('recvHold', 'int'),
+        'self.sent_open.asn': ('sentAs', 'int'),
+        'self.received_open.asn': ('recvAs', 'int'),
+        'sent_capa.get(Capability.CODE.FOUR_BYTES_ASN, None)': ('sentAsn4Value', 'int'),
+        'recv_capa.get(Capability.CODE.FOUR_BYTES_ASN, None)': ('recvAsn4Value', 'int'),
+        'isinstance(sent_asn4, ASN)': ('sentAsn4IsAsn', 'bool'),
+        'isinstance(asn4_capa, ASN)': ('recvAsn4IsAsn', 'bool'),
+    }
+    for code, nm in caps.items():
+        nopaque[f'sent_capa.announced(Capability.CODE.{code})'] = ('s' + nm, 'bool')
+        nopaque[f'recv_capa.announced(Capability.CODE.{code})'] = ('r' + nm, 'bool')
+    nfields = {'holdtime': 'int', 'asn4': 'bool', 'operational': 'bool', 'local_as': 'int', 'peer_as': 'int', 'refresh': 'int', 'msg_size': 'int', 'linklocal_nexthop': 'bool'}
+    t2 = pylite.translate(
+        Negotiated._negotiate,
+        pylite.Spec(
+            cls='Negotiating', fields=nfields, ret='none', uses_now=False, opaque=nopaque, slice_fields=True, identity_calls=('HoldTime',),
+            consts={'REFRESH.ENHANCED': int(REFRESH.ENHANCED), 'REFRESH.NORMAL': int(REFRESH.NORMAL), 'ExtendedMessage.EXTENDED_SIZE': int(ExtendedMessage.EXTENDED_SIZE)},
+        ),
+        lean_name='Negotiating.negotiate_scalars',
+    )
+    init = f'/-- `Negotiated.__init__`: the values `_negotiate` starts from (REFRESH.ABSENT, ExtendedMessage.INITIAL_SIZE) -/\ndef refreshAbsent : Int := {int(REFRESH.ABSENT)}\ndef initialSize : Int := {int(ExtendedMessage.INITIAL_SIZE)}\n'
     out = [
         '/-! `Negotiated.validate` of `exabgp/bgp/message/open/capability/negotiated.py`, translated by `harness/pylite.py`. -/',
         'set_option linter.unusedVariables false',
@@ -40,6 +68,10 @@ def generate() -> dict[str, str]:
         pylite.lean_state_structure('Negotiated', {}),
         '',
         t.lean,
+        pylite.lean_state_structure('Negotiating', nfields),
+        '',
+        init,
+        t2.lean,
         'end Exa.Generated.PyNego',
         '',
     ]
